@@ -130,14 +130,27 @@ func sizeOfUvarint(n uint64) int {
 	return binary.PutUvarint(make([]byte, binary.MaxVarintLen64), n)
 }
 
+// sizeOfLengthPrefix returns the width of the uvarint length prefix of a record whose total
+// on-disk size (prefix included) is total. The prefix encodes the payload length, not the
+// total, so its width p is the one for which p == sizeOfUvarint(total-p).
+func sizeOfLengthPrefix(total uint64) int {
+	for p := 1; p <= binary.MaxVarintLen64; p++ {
+		if total > uint64(p) && sizeOfUvarint(total-uint64(p)) == p {
+			return p
+		}
+	}
+	return sizeOfUvarint(total)
+}
+
 func (s *LinkedLog) ReadWithSize(offset uint64, size uint64) ([]OffsetAndSizeAndSlot, indexes.OffsetAndSize, error) {
 	if size > 256*mib {
 		return nil, indexes.OffsetAndSize{}, fmt.Errorf("compacted indexes length too large: %d", size)
 	}
 	// debugln("compactedIndexesLen:", compactedIndexesLen)
 	// Read the compressed indexes
-	data := make([]byte, size-uint64(sizeOfUvarint(size))) // The size bytes have already been read.
-	_, err := s.file.ReadAt(data, int64(offset)+int64(sizeOfUvarint(size)))
+	prefixLen := uint64(sizeOfLengthPrefix(size))
+	data := make([]byte, size-prefixLen) // The size bytes have already been read.
+	_, err := s.file.ReadAt(data, int64(offset)+int64(prefixLen))
 	if err != nil {
 		return nil, indexes.OffsetAndSize{}, err
 	}
